@@ -569,7 +569,9 @@ VH_CMD(c45_desc)
             std::string err1;
             auto p1 = Parse(s1, keys1, err1, /*require_checksum=*/true);
             if (p1.size() != 1) {
-                if (di >= 1 && err1.find("duplicate public keys") != std::string::npos) {
+                const bool is_multipath = input.find('<') != std::string::npos && parsed.size() > 1;
+                const bool underivable = !DoExpand(d, 0, FlatSigningProvider{}).ok; // keys of this variant need private keys
+                if (is_multipath && di >= 1 && underivable && err1.find("duplicate public keys") != std::string::npos) {
                     // multipath: only the first variant's keys are compared for duplicates when the multipath string is parsed; a
                     // later variant whose keys cannot be derived without private keys (hardened steps below an xpub) compares them
                     // all "equal" when parsed on its own
@@ -597,7 +599,8 @@ VH_CMD(c45_desc)
                 } else {
                     d2 = std::move(p2[0]);
                     if (d2->ToString() != s1) {
-                        if (XOnlyForm(d2->ToString()) == XOnlyForm(s1)) {
+                        const bool taproot_desc = s1.rfind("tr(", 0) == 0 || s1.rfind("rawtr(", 0) == 0;
+                        if (taproot_desc && d2->ToString().size() < s1.size() && XOnlyForm(d2->ToString()) == XOnlyForm(s1)) {
                             // tr(): a key written as 33-byte hex whose private key is known is printed as WIF, which re-parses as an x-only key
                             fail("descriptor-privstring-public-differs-xonly-spelling", "descriptor parsed from the private string prints a compressed hex key of a tr() descriptor in x-only form", s1, d2->ToString());
                         } else {
